@@ -49,6 +49,13 @@ def gen_datagrams(rng, n):
             out.append(("long-utf8-field", N.enc_req(N.RRQ, "probe.bin", mode=("a" * lead + ch * 60).encode())))
             out.append(("long-utf8-field", N.enc_error(1, ("a" * lead + ch * 150).encode())))
             out.append(("long-utf8-field", N.enc_req(N.RRQ, "probe.bin", options=[("a" * lead + ch * 40, "1")])))
+    # abandoned uploads: accepted, then the client never sends anything (the worker lingers for 6 x timeout), followed
+    # by further requests for the same names
+    for _ in range(12):
+        for nm in ("same.bin", "same2.bin"):
+            out.append(("abandoned-upload", N.enc_req(N.WRQ, nm, options=[("timeout", rng.choice([30, 60, 120]))])))
+            out.append(("abandoned-upload", N.enc_req(N.WRQ, nm)))
+            out.append(("abandoned-upload", N.enc_req(N.RRQ, nm)))
     # (iv) option boundary values, each option alone and combined
     uniq = 0
     for kind, name in ((N.RRQ, "probe.bin"), (N.WRQ, None)):
@@ -111,6 +118,7 @@ class Pool:
             self.socks.append(s)
         self.replies = {}
         self.n = 0
+        self.left_hanging = 0
         self.sources = k
 
     def send(self, rng, data, addr):
@@ -147,6 +155,9 @@ class Pool:
                 self.replies[k] = self.replies.get(k, 0) + 1
                 # let every second accepted transfer proceed one step before it is cancelled
                 self.n += 1
+                if self.n % 9 == 4:
+                    self.left_hanging += 1
+                    continue          # an abandoned transfer: its worker has to give up on its own
                 try:
                     if k == "OACK" and self.n % 2 == 0:
                         s.sendto(N.enc_ack(0), src)
@@ -162,16 +173,18 @@ class Pool:
             s.close()
 
 
-def one_run(tftpd, flavor, single, ro, dgrams, sb, rng_seed):
+def one_run(tftpd, flavor, single, rw, dgrams, sb, rng_seed):
+    ro = rw == "read-only"
+    ow = rw == "overwrite"
     """returns dict(result) ; feeds datagrams in batches of 64 with a probe after each"""
     rng = random.Random(rng_seed)
     content = N.keyed_content("probe", 700)
     write(os.path.join(sb["srv"], "probe.bin"), content)
-    cfg = f"{flavor}/{'single' if single else 'multi'}/{'read-only' if ro else 'writable'}"
+    cfg = f"{flavor}/{'single' if single else 'multi'}/{rw}"
     res = {"cfg": cfg, "sent": 0, "probes": 0, "failure": None, "labels": {}, "replies": {}}
 
     def fresh():
-        srv = N.Server(tftpd, sb["srv"], single=single, read_only=ro, logdir=sb["logs"], tag=f"c05-{flavor}")
+        srv = N.Server(tftpd, sb["srv"], single=single, read_only=ro, overwrite=ow, logdir=sb["logs"], tag=f"c05-{flavor}")
         srv.start()
         return srv
 
@@ -221,8 +234,25 @@ def one_run(tftpd, flavor, single, ro, dgrams, sb, rng_seed):
                     single_repro = not ok3
                 finally:
                     srv3.stop()
-            res["failure"] = {"kind": "violation" if culprit else "unreproduced", "why": why, "exit_status": status, "log_tail": log, "batch_index": bi,
-                              "culprit_label": culprit[1] if culprit else None, "culprit_hex": culprit[2][:120].hex() if culprit else None,
+            history_repro = None
+            if not culprit:
+                # the failure may need state left by earlier datagrams (lingering transfers): replay the whole history
+                srv4 = fresh()
+                pool4 = Pool(socket.AF_INET, 8)
+                try:
+                    for hb in range(0, bi + B, B):
+                        for label, d in dgrams[hb:hb + B]:
+                            pool4.send(rng, d, srv4.addr)
+                        pool4.drain(0.01)
+                    ok4, why4 = N.probe(srv4, "probe.bin", content)
+                    history_repro = not ok4
+                finally:
+                    pool4.close()
+                    srv4.stop()
+                if history_repro:
+                    culprit = (-1, "history-of-%d-datagrams" % (bi + len(batch)), b"")
+            res["failure"] = {"kind": "violation" if culprit else "unreproduced", "why": why, "exit_status": status, "log_tail": log, "batch_index": bi, "history_replay_reproduces": history_repro,
+                              "culprit_label": culprit[1] if culprit else None, "culprit_hex": culprit[2][:120].hex() if culprit else None, "batch_labels": [l for l, _ in batch],
                               "culprit_alone_reproduces": single_repro, "batch_hex": [d[:80].hex() for _, d in batch] if not culprit else None}
             return res
         res["replies"] = dict(pool.replies)
@@ -241,10 +271,10 @@ def run(tier):
     n = 120_000 if thorough else 12_000
     jobs = []
     k = 0
-    with concurrent.futures.ThreadPoolExecutor(max_workers=8) as ex:
+    with concurrent.futures.ThreadPoolExecutor(max_workers=12) as ex:
         for fl in flavors:
             for single in (False, True):
-                for ro in (False, True):
+                for ro in ("read-only", "writable", "overwrite"):
                     k += 1
                     rng = random.Random(C.seed() * 131 + k)
                     dgrams = gen_datagrams(rng, n)
@@ -286,7 +316,7 @@ def replay(rec):
     sb = ctx.sandbox("c05replay")
     content = N.keyed_content("probe", 700)
     write(os.path.join(sb["srv"], "probe.bin"), content)
-    srv = N.Server(ctx.bins[fl]["tftpd"], sb["srv"], single=(mode == "single"), read_only=(rw == "read-only"), logdir=sb["logs"]).start()
+    srv = N.Server(ctx.bins[fl]["tftpd"], sb["srv"], single=(mode == "single"), read_only=(rw == "read-only"), overwrite=(rw == "overwrite"), logdir=sb["logs"]).start()
     try:
         if not r.get("culprit_hex"):
             print("no single culprit recorded; batch:", r.get("batch_hex"))
